@@ -807,6 +807,99 @@ def gen_bigstore_group(rng, nodes):
 
 
 # --------------------------------------------------------------------------
+# the store JUST BELOW a size threshold, crossed in the middle of ONE manager's posting sequence
+# --------------------------------------------------------------------------
+THRESHOLDS_QUICK = [1 << 10, 10 ** 3, 1 << 12, 10 ** 4, 1 << 16, 10 ** 5, 1 << 17, 1 << 18]
+THRESHOLDS_ALL = sorted([1 << k for k in range(10, 22)] + [10 ** k for k in range(3, 7)])
+
+
+def gen_threshold_probe(rng):
+    """(early, probe): `early` is a small design encoded as the very first thing of the process (its nodes get the
+    smallest ids); the probe is ONE manager posting four non-clause inequalities: P1 has the early inequality as the
+    cofactor by its heaviest literal (new root nodes over the early, small-id nodes), P2 is unrelated, P3 is the early
+    inequality itself (no new node at all after the history), P4 is unrelated again."""
+    nv = rng.choice([5, 5, 6])
+    names = c07.NAMES[:nv]
+    newvars = [{"k": "newvar", "v": v} for v in names]
+    while True:
+        vs = rng.sample(names[1:], rng.choice([3, 4, 4, nv - 1]))
+        cs = sorted([rng.choice([1, 1, 2, 2, 3, 4, 5]) for _ in vs], reverse=True)
+        if sum(cs) - max(cs) >= 2 and len(vs) >= 3:
+            break
+    eb = rng.randint(max(cs) + 1, sum(cs) - 1) if sum(cs) - 1 >= max(cs) + 1 else sum(cs)
+    elt = [[v, rng.random() < 0.8, c] for v, c in zip(vs, cs)]
+    early = {"k": "ineq", "lt": elt, "rt": [], "b": eb, "op": "GE", "decomp": False, "via": "ctor"}
+    c0 = max(cs) + rng.choice([1, 2, 4])
+    pol = rng.random() < 0.8
+    # positive heavy literal: the cofactor "literal true" is (rest >= b - c0); negative: the cofactor "literal false"
+    p1 = {"k": "ineq", "lt": [[names[0], pol, c0]] + elt, "rt": [], "b": eb + c0, "op": "GE", "decomp": False,
+          "via": "ctor"}
+
+    def other():
+        ws = rng.sample(names, rng.randrange(3, nv + 1))
+        ds = [rng.choice([1, 2, 2, 3, 4, 5]) for _ in ws]
+        if sum(ds) <= max(ds) + 1:
+            ds = [2] * len(ws)
+        return {"k": "ineq", "lt": [[v, rng.random() < 0.75, c] for v, c in zip(ws, ds)], "rt": [],
+                "b": rng.randint(max(ds) + 1, sum(ds) - 1), "op": "GE", "decomp": rng.random() < 0.3, "via": "ctor"}
+    posts = newvars + [p1, other(), dict(early), other()]
+    early_op = strip({"op": {"k": "sat", "posts": newvars + [early], "solve": True}, "kind": "sat", "stream": "logic",
+                      "dims": None, "cand": [], "note": "early"})
+    probe = {"op": {"k": "sat", "posts": posts, "solve": rng.random() < 0.5}, "kind": "sat", "stream": "logic",
+             "variant": None, "dims": None, "note": "posts/threshold", "cand": []}
+    return early_op, strip(probe)
+
+
+def measure_threshold_probes(pairs):
+    """new diagram nodes after each post of every probe, executed after its early design (on the checked tree, one worker
+    call for all of them): cumulative counts c_1 = 0 <= c_2 <= ... (c_j = nodes the posts before the j-th inequality
+    created).  None when the worker could not tell"""
+    jobs = [{"id": f"m{i}", "history": [wj(e["op"])], "probes": [wj(p["op"])]} for i, (e, p) in enumerate(pairs)]
+    outs = call_workers_parallel([jobs], fork=True, par=1)[0] if jobs else []
+    res = []
+    for (e, p), o in zip(pairs, outs):
+        try:
+            raw = unwj(o["probes"][0]["raw"])
+            ineq = [i for i, q in enumerate(p["op"]["posts"]) if q["k"] == "ineq"]
+            lens = [raw["memlen0"]] + list(raw["memlens"])
+            res.append([lens[i] - raw["memlen0"] for i in ineq] + [lens[-1] - raw["memlen0"]])
+        except Exception:
+            res.append(None)
+    return res
+
+
+def threshold_offsets(cum, quick):
+    """store sizes (as T - d) at the start of the probe so that the size T is passed / reached exactly at the start of
+    the j-th inequality, in the middle of the second one, and at the start of the probe"""
+    ds = []
+    c = cum or [0, 3, 8, 8, 12]
+    for j in range(1, len(c) - 1):
+        ds += [c[j] - 1, c[j]]            # T + 1 (just passed) / exactly T nodes when the (j+1)-th conversion starts
+    ds += [(c[1] + c[2]) // 2, 0, -1]     # passed while the second diagram is built; T / T + 1 at the probe's start
+    out = []
+    for d in ds:
+        if d not in out:
+            out.append(d)
+    return out[:5] if quick else out
+
+
+def gen_threshold_group(rng, T, early, probe, cum, quick):
+    """history: the early design, then unrelated encodings up to a store of T - D nodes (D above every offset); the last
+    step of each history - growth to exactly T - d - is executed in the probe's own fork (case field `tail`)"""
+    ds = threshold_offsets(cum, quick)
+    D = max(ds) + 1
+    hist = [copy_of(early),
+            strip({"op": {"k": "satgrow", "nodes": 0, "upto": int(T - D), "pyseed": rng.randrange(1 << 30), "tag": "g"},
+                   "kind": "satgrow", "stream": "logic", "dims": None, "cand": [], "note": f"below:{T}"})]
+    cases = []
+    for d in ds:
+        tail = [{"k": "satgrow", "nodes": 0, "upto": int(T - d), "pyseed": rng.randrange(1 << 30), "tag": "h"}]
+        cases.append({"history": copy_of(hist), "tail": tail, "probe": copy_of(probe),
+                      "threshold": {"T": int(T), "d": int(d), "cum": cum}})
+    return cases
+
+
+# --------------------------------------------------------------------------
 # executing cases (batched)
 # --------------------------------------------------------------------------
 _CACHE = {}
@@ -865,6 +958,9 @@ def assemble(case, alone, after_job, idx):
            "eps_hist": eps_of(after["before"]) if "before" in after else None,
            "eps_after": eps_of(after["after"]) if "after" in after else None,
            "raw_alone": alone.get("raw"), "raw_after": after.get("raw"), "attrib": None}
+    if case.get("tail"):
+        obs["tail_mem"] = [unwj(t["after"]).get("memlen") for t in after.get("tail", [])]
+        obs["tail_landed"] = [bool((unwj(t.get("obs")) or {}).get("landed")) for t in after.get("tail", [])]
     if "worker_error" in alone or "worker_error" in after or "worker_error" in after_job:
         obs["crash"] = str(alone.get("worker_error") or after.get("worker_error") or after_job.get("worker_error"))
     return obs
@@ -887,11 +983,13 @@ def run_batch(cases, par=8):
             pidx[pk] = len(probes)
             probes.append(c["probe"]["op"])
     jobs = [{"id": hk, "history": [wj(h["op"]) for h in groups[hk]["history"]],
-             "probes": [wj(c["probe"]["op"]) for c in groups[hk]["cases"]]} for hk in order]
+             "probes": [wj(c["probe"]["op"]) for c in groups[hk]["cases"]],
+             "tails": [wj(c.get("tail")) for c in groups[hk]["cases"]]} for hk in order]
     alone_jobs = [{"id": f"alone{i}", "history": [], "probes": [wj(p) for p in probes[i:i + 40]]}
                   for i in range(0, len(probes), 40)]
     # histories that grow the diagram store take 20-40 s: each leads a batch of its own worker
-    heavy = [j for j in jobs if any(h.get("k") == "satgrow" and h.get("nodes", 0) > 200000 for h in j["history"])]
+    heavy = [j for j in jobs if any(h.get("k") == "satgrow" and max(h.get("nodes", 0), h.get("upto") or 0) > 200000
+                                    for h in j["history"])]
     jobs = heavy + [j for j in jobs if j not in heavy]
     alljobs = (jobs[:len(heavy)] + alone_jobs + jobs[len(heavy):]) if heavy else alone_jobs + jobs
     nb = max(1, min(par, len(alljobs)))
@@ -1259,7 +1357,7 @@ def fresh_crosscheck(ctx, out, cases, n):
     batches = []
     for c in sample:
         batches.append([{"id": "alone", "history": [], "probes": [wj(c["probe"]["op"])]}])
-        batches.append([{"id": "after", "history": [wj(h["op"]) for h in c["history"]],
+        batches.append([{"id": "after", "history": [wj(h["op"]) for h in c["history"]] + [wj(t) for t in c.get("tail") or []],
                          "probes": [wj(c["probe"]["op"])]}])
     outs = call_workers_parallel(batches, fork=False, par=8)
     for i, c in enumerate(sample):
@@ -1334,7 +1432,14 @@ def run(ctx, out, replay=None):
                 "transposed, reversed, one line moved, doubled. BIG STORE: a history operation that grows the "
                 "diagram store by 400 / 3*10^4 / 2^20+4096 nodes (thorough: ten sizes up to 2^21), then three fresh "
                 "managers posting non-clause inequalities, a random posting sequence, a Strop and a default-argument "
-                "probe. non-trivial = non-empty history; distinct by (order-sensitive) hash")
+                "probe. JUST BELOW A THRESHOLD (quick: 2^10, 10^3, 2^12, 10^4, 2^16, 10^5, 2^17, 2^18; thorough: "
+                "2^10..2^21 and 10^3..10^6): the first operation of the process encodes a small inequality E (smallest "
+                "ids); unrelated encodings then bring the store to EXACTLY T - d entries (fillers, then conjunctions of "
+                "<= 7 fresh variables, m nodes each); the probe is ONE manager posting four non-clause inequalities - "
+                "P1 with E as the cofactor by its heaviest literal, P2 unrelated, P3 = E, P4 unrelated; d is taken "
+                "from the measured node counts of the probe so that the store reaches T exactly / passes T at the "
+                "start of P2, P3, P4, in the middle of P2, and at the start of the probe. "
+                "non-trivial = non-empty history; distinct by (order-sensitive) hash")
     cases = []
     if replay and "case" in replay:
         cases.append(fr.unjson(replay["case"]))
@@ -1351,6 +1456,17 @@ def run(ctx, out, replay=None):
         g = gen_bigstore_group(brng, nodes)
         nbig += len(g)
         cases += g
+    # ... and the store JUST BELOW a size threshold (2^k, 10^k), passed in the middle of one manager's posting sequence
+    trng = random.Random(brng.randrange(1 << 30))
+    ths = THRESHOLDS_QUICK if quick else THRESHOLDS_ALL
+    pairs = [gen_threshold_probe(trng) for _ in ths]
+    cums = measure_threshold_probes(pairs)
+    nthr = 0
+    for T, (early, probe), cum in zip(ths, pairs, cums):
+        g = gen_threshold_group(trng, T, early, probe, cum, quick)
+        nthr += len(g)
+        cases += g
+    _t("threshold probes measured")
     nrel = 0
     kinds = [REL_KINDS[i % len(REL_KINDS)] for i in range(nrelated)]
     # process-wide state the checked tree has and the pinned tree had not (static audit; informative): more
@@ -1401,6 +1517,16 @@ def run(ctx, out, replay=None):
         if v is False and _CACHE[case_key(c)]["alone"]["digest"] != _CACHE[case_key(c)]["after"]["digest"])
     stats["related_pairs"] = nrel
     stats["bigstore_pairs"] = nbig
+    thr = [(c, _CACHE.get(case_key(c), {})) for c in cases if c.get("threshold")]
+    stats["threshold_pairs"] = nthr
+    stats["threshold_measured"] = sum(1 for c in cums if c is not None)
+    # the store held exactly T - d entries when the probe started (on a tree that evicts nodes it may not)
+    stats["threshold_landed"] = sum(1 for c, o in thr if o.get("tail_landed") and all(o["tail_landed"]) and
+                                    o.get("tail_mem") and o["tail_mem"][-1] == c["threshold"]["T"] - c["threshold"]["d"])
+    # ... and passed T between the first and the last post of the probed manager
+    stats["threshold_crossed_mid_probe"] = sum(
+        1 for c, o in thr if o.get("tail_mem") and o.get("raw_after") and
+        o["tail_mem"][-1] <= c["threshold"]["T"] < (unwj(o["raw_after"]).get("memlens") or [0])[-1])
     stats["max_store_before_probe"] = max([m for c in cases for m in (_CACHE.get(case_key(c), {}).get("trace_mem") or [])
                                            if m is not None] or [0])
     out.extra["c20_stats"] = stats
